@@ -41,6 +41,9 @@ pub enum ParseError {
     /// to the XML namespace, or anything bound to the xmlns namespace.
     /// Carries the name of the declaring attribute.
     InvalidNamespaceDeclaration(String, Span),
+    /// The target of a processing instruction cannot be `xml` (in any
+    /// letter case).
+    InvalidTarget(String, Span),
     /// xmlparser error
     XmlParser(xmlparser::Error, usize),
 }
@@ -64,6 +67,7 @@ impl ParseError {
             ParseError::TextAtTopLevel(span) => *span,
             ParseError::DuplicateId(_, span) => *span,
             ParseError::InvalidNamespaceDeclaration(_, span) => *span,
+            ParseError::InvalidTarget(_, span) => *span,
             ParseError::XmlParser(_, position) => Span::new(*position, *position),
         }
     }
@@ -202,6 +206,9 @@ impl std::fmt::Display for ParseError {
             ParseError::DuplicateId(s, _) => write!(f, "Duplicate xml:id: {}", s),
             ParseError::InvalidNamespaceDeclaration(s, _) => {
                 write!(f, "Invalid namespace declaration: {}", s)
+            }
+            ParseError::InvalidTarget(s, _) => {
+                write!(f, "Invalid processing instruction target: {}", s)
             }
             ParseError::XmlParser(e, _position) => write!(f, "Parser error: {}", e),
         }
